@@ -48,9 +48,10 @@ type c12Input struct {
 	Suite   uint16    `json:"suite"`
 	Plan    string    `json:"plan"` // ok | wrong-finished | deadline (the peer falls silent after DlSteps steps and the endpoint's read deadline expires; afterwards the deadline is cleared and the peer carries on)
 	DlSteps int       `json:"dl_steps,omitempty"`
-	Pos     int       `json:"pos"`            // handshake position (puppet steps done) where early arrivals are injected
-	Big     bool      `json:"big,omitempty"`  // more than 480 bytes may be pending (only streams where nothing follows delivered data)
-	Pipe    bool      `json:"pipe,omitempty"` // the transport reports a read on a closed stream as io.ErrClosedPipe (like net.Pipe), not net.ErrClosed
+	Pos     int       `json:"pos"`                // handshake position (puppet steps done) where early arrivals are injected
+	Big     bool      `json:"big,omitempty"`      // more than 480 bytes may be pending (only streams where nothing follows delivered data)
+	EofData bool      `json:"eof_data,omitempty"` // the transport hands over the last bytes before its end together with io.EOF (one Read), not in a separate (0, EOF)
+	Pipe    bool      `json:"pipe,omitempty"`     // the transport reports a read on a closed stream as io.ErrClosedPipe (like net.Pipe), not net.ErrClosed
 	Calls   []c12Call `json:"calls"`
 }
 
@@ -102,7 +103,7 @@ func c12Class(err error) (coq, name string) {
 	}
 	s := err.Error()
 	switch {
-	case errors.Is(err, context.Canceled):
+	case errors.Is(err, context.Canceled), errors.Is(err, context.DeadlineExceeded):
 		return "(Some XCtx)", "ctx-canceled"
 	case errors.Is(err, net.ErrClosed), strings.Contains(s, "closed pipe"), strings.Contains(s, "use of closed"):
 		return "(Some XClosed)", "closed"
@@ -180,6 +181,7 @@ func c12New(in c12Input) *c12Sess {
 	if in.Pipe {
 		s.raw.In.ClosedErr = io.ErrClosedPipe
 	}
+	s.raw.In.EOFWithData = in.EofData
 	p := &puppet.Peer{L: &c12Link{s}, Client: !targetIsClient, Vers: puppet.VersionTLCP}
 	s.P = p
 	fin := "ok"
@@ -1023,6 +1025,14 @@ func runC12(p params) error {
 				c12AddPair(out, sc, in)
 				continue
 			}
+			if sc == "dial" {
+				var in c12DialInput
+				if err := json.Unmarshal(c.Input, &in); err != nil {
+					return err
+				}
+				c12AddDial(out, in)
+				continue
+			}
 			var in c12Input
 			if err := json.Unmarshal(c.Input, &in); err != nil {
 				return err
@@ -1086,6 +1096,9 @@ func runC12(p params) error {
 					}
 					calls = append(calls, wr(3), rd(10), op("close"), rd(10))
 					c12AddCase(out, "transport-end-at-offset", c12Input{Target: target, Suite: suite, Plan: "ok", Pos: 1, Calls: calls})
+					if off == 0 || cut%3 == 0 {
+						c12AddCase(out, "transport-end-with-last-bytes", c12Input{Target: target, Suite: suite, Plan: "ok", Pos: 1, Calls: calls, EofData: true})
+					}
 				}
 			}
 		}
@@ -1250,8 +1263,12 @@ func runC12(p params) error {
 	}
 	for i := 0; i < n; i++ {
 		t := targets[i%2]
-		c12AddCase(out, "history", g.history(t))
+		in := g.history(t)
+		in.EofData = i%5 == 4
+		c12AddCase(out, "history", in)
 	}
+	// (8) the dialing entry points: the dialer's timeout / deadline and the caller's context bound the handshake too
+	c12Dial(out, thorough)
 	return out.Finish()
 }
 
